@@ -99,8 +99,8 @@ pub fn spec(prop: &str) -> Option<CheckSpec> {
             level: "exploration",
             rule: "Cluster family: an input > 1 chunk is decomposed (recursive left_subtree_len splits stopped at random depths, fixed 2^j-chunk groups, or a mix) into shards assigned to 1-6 simulated worker tasks; each worker hashes its shard with set_input_offset + any update fragmentation/adapter + finalize_non_root and sends the chaining value to the coordinator task; injected faults: worker crash mid-shard (partial hasher abandoned, shard recomputed on a fresh hasher, possibly elsewhere), duplicated and reordered CV messages. The coordinator merges by tree position (merge_subtrees_non_root / _root / _root_xof). Oracle: every shard CV and every merge = SpecModel; the root hash/XOF = the crate's one-shot function / finalize_xof on the whole input. Giant family: a virtual input length up to 2^64-1 is walked down with left_subtree_len (each value compared with the model's largest power of two below n) to a <= 64 KiB window at a chunk-aligned offset up to 2^64-1024 (chunk counters >= 2^32 and up to 2^54-1); only the window is hashed, as one subtree and as two merged halves, and compared with the model; max_subtree_len is compared with 1024*2^tz at every shard start. distinct_nontrivial = distinct state shapes + schedule signatures.",
             families: vec![
-                Family { name: "c09-cluster", gen: gen::c09, quick: 25_000, thorough: 1_500_000, judge: Judge::Exec },
-                Family { name: "c09-giant", gen: gen::c09_giant, quick: 25_000, thorough: 1_500_000, judge: Judge::Exec },
+                Family { name: "c09-cluster", gen: gen::c09, quick: 25_000, thorough: 800_000, judge: Judge::Exec },
+                Family { name: "c09-giant", gen: gen::c09_giant, quick: 25_000, thorough: 800_000, judge: Judge::Exec },
             ],
             real: REAL_RUST.to_vec(),
             stubs: vec!["the network between workers and coordinator is the simulator's in-memory mailbox (delivery order decided by the schedule)"],
@@ -144,8 +144,8 @@ pub fn spec(prop: &str) -> Option<CheckSpec> {
             level: "exploration",
             rule: "The real b3sum binary (repository source, shadow manifest) runs as a process in a per-run sandbox directory. Hash family: file sets (sizes on both sides of 16 KiB, empty files, missing files, stdin as '-'), flag swarm over --keyed (stdin key of length 0..40), --derive-key, --length, --seek (C03 positions), --no-mmap, --num-threads, --raw, --no-names, --tag and combinations clap must refuse; oracle: stdout bytes = the library's extended output S[seek..seek+length] computed in the harness, in the documented line format; refused invocations print no digest and exit non-zero; exit status 0 iff every input was readable. Check family: checkfiles produced by real b3sum, then faults between the two runs (listed file deleted / modified / truncated / replaced by a directory; checkfile lines damaged by single-character edits, spliced malformed lines, CRLF rewriting, truncation, invalid UTF-8, a checkfile that does not exist, several checkfiles, checkfile on stdin); oracle: a line-by-line model of the documented format classifies every entry, exit status 0 iff all entries are OK, every later entry is still reported in order, a panic (exit 101) is a violation; for unreadable / non-UTF-8 checkfiles only the non-zero exit status is required. distinct_nontrivial = distinct (flag set x outcome) classes.",
             families: vec![
-                Family { name: "c12-hash", gen: gen::c12_hash, quick: 1_500, thorough: 60_000, judge: Judge::Exec },
-                Family { name: "c12-check", gen: gen::c12_check, quick: 1_200, thorough: 60_000, judge: Judge::Exec },
+                Family { name: "c12-hash", gen: gen::c12_hash, quick: 1_500, thorough: 30_000, judge: Judge::Exec },
+                Family { name: "c12-check", gen: gen::c12_check, quick: 1_200, thorough: 30_000, judge: Judge::Exec },
             ],
             real: vec!["/repo/b3sum/src/main.rs built through /verif/shadow/b3sum (release)", "/repo/src", "clap, rayon-core, memmap2, anyhow, hex", "kernel VFS, pipes, process exit status"],
             stubs: vec!["wild::args_os = std::env::args_os (what wild is on Unix)", "clap without the wrap_help feature (terminal_size not in the cargo cache)"],
@@ -157,7 +157,7 @@ pub fn spec(prop: &str) -> Option<CheckSpec> {
             rule: "End-to-end family: files whose names are built from an alphabet rich in the characters that matter (space, double space, ') = ', 'BLAKE3 (', backslash, LF, CR, literal backslash-n, multi-byte UTF-8, invalid UTF-8 bytes, U+FFFD) and pairs engineered to collide under a sloppy parser (contents differ) are hashed by real b3sum (plain and --tag), the checkfile is optionally rewritten to CRLF / damaged, and verified by real b3sum --check: representable paths must come back OK under exactly their own name, unrepresentable ones must fail. In-process family (b3sum's main.rs compiled into the harness by include!): for each path the line is built with the real filepath_to_string and parsed back with the real parse_check_line (must round-trip, or be rejected if unrepresentable), and every single-character substitution / insertion / deletion at every position (15 characters incl. NUL, U+FFFD, multi-byte, backslash, CR, LF) plus every truncation is parsed: never a panic, and Ok only with the path and 64 lowercase hex digits the documented format gives. distinct_nontrivial = distinct outcome classes.",
             families: vec![
                 Family { name: "c13-parse", gen: gen::c13_parse, quick: 6_000, thorough: 300_000, judge: Judge::Exec },
-                Family { name: "c13-e2e", gen: gen::c13_e2e, quick: 1_200, thorough: 60_000, judge: Judge::Exec },
+                Family { name: "c13-e2e", gen: gen::c13_e2e, quick: 1_200, thorough: 30_000, judge: Judge::Exec },
             ],
             real: vec!["/repo/b3sum/src/main.rs (as a process, and compiled into the harness for parse_check_line / filepath_to_string / unescape)", "/repo/src"],
             stubs: vec!["wild::args_os = std::env::args_os", "clap without wrap_help"],
